@@ -24,6 +24,10 @@ CLAIMED = {
          "seeded simulation of real rustls sessions over the simulated network; reference-model oracle", "4 C08"),
  "C09": ("seeded sampling of the full TLS grid (min version x mode x authz x role x peer versions x peer certificate) with real rustls handshakes over the simulated stream against an independently configured bare rustls peer, under record chunking/latency and broken-handshake faults",
          "seeded simulation; grid oracle; handshake fault injection", "4 C09"),
+ "C18": ("differential simulation of the generated extern \"C\" functions on the simulated runtime against a same-named outcome table written from the schema: all eight client operations x outcome classes (values, 256 exception codes, bad response, bad framing, I/O error, timeout in exact virtual ms, shutdown), invalid arguments, queue-full bursts without stepping the simulation, post-shutdown calls, callback/on_destroy exactly-once counting, listener state mapping; server write callbacks x every WriteResult",
+         "seeded simulation of the C ABI on a simulated tokio runtime; differential oracle", "4 C18"),
+ "C19": ("map semantics: seeded add/update/delete/get sequences through the extern \"C\" database functions inside configure/transaction/write callbacks, interleaved with client reads over the simulated network, against model::db. Atomicity under thread pre-emption: see level_note",
+         "seeded simulation; reference map model (atomicity: shuttle schedule exploration)", "4 C19"),
  "C10": ("exact lock-step comparison of the real client task with model::client over seeded action/fault sequences (replies, timeouts, I/O errors, enable/disable, shutdown, handle drop, task abort, clock jumps) in virtual time; exactly-once and result class per request",
          "seeded simulation with fault injection; refinement against an executable reference model", "4 C10"),
  "C11": ("same lock-step runs: wire frames and tx ids vs model; stale/duplicate/future/unsolicited frames never complete a request; 66 000-request wrap run",
